@@ -189,7 +189,7 @@ func c15CheckCemi(got, want cemi.Message, infoLen, dataLen int) {
 func HarnessC15Send(a []int) {
 	v := c15Value(a)
 	conn := &c15Conn{}
-	sock := &TunnelSocket{conn, nil}
+	sock := verifMkTunnelSocket(conn, nil)
 	err := sock.Send(v)
 	verifAssert("C15.send.ok", err == nil)
 	verifAssert("C15.send.one_write", conn.writes == 1)
